@@ -38,7 +38,8 @@ def known_excl(init, bound, cmp_, side, pos):
 WIDE_MODES = ['CUDA', 'HIP', 'Metal']
 
 
-WIDE = ('tr_wrapped', WIDE_MODES)    # symptom: the translation visited a value in [2^31, 2^32) (true values are below 2^15 in magnitude)
+WIDE = ('tr_wrapped || ref_negative', WIDE_MODES)    # the sequential loop takes a negative value (which the 32-bit unsigned index arithmetic cannot reproduce
+                                                    # in a 64-bit iterator), or the translation visited a value in [2^31, 2^32) (true values are below 2^15)
 
 
 NEG = 'launch_negative && nvis[0] == 0'   # the sequential loop is empty and the launcher computed a negative dimension
@@ -89,6 +90,12 @@ def programs(tier, seed):
             if T == 'long':
                 p.excl_post['wide-iterator-negative'] = WIDE
             progs.append(p)
+    # designated program for re-confirming the wide-iterator finding (a negative initial value is reachable)
+    okl = '@kernel void hwide(%s) {\n  for (long i = a; i < N; i++; @outer) {\n    for (int j = 0; j < 1; ++j; @inner) {\n      rec(out, i, j);\n    }\n  }\n}\n' % SIG
+    p = O.Prog('hwide', okl, 'hwide', ARGS(tier), refcap=U, cap=U + 1, unwind=U + 2, desc='for (long i = a; i < N; i++; @outer): 64-bit iterator with 32-bit operands')
+    p.excl_post = {'negative-trip-count': NEG, 'wide-iterator-negative': WIDE}
+    p.reconfirms = ('wide-iterator-negative',)
+    progs.append(p)
     # (3) multi-dimensional nests: index <-> dimension assignment
     NESTM = {'n2x2': ['Serial', 'CUDA', 'OpenCL'], 'n3x1': ['OpenMP', 'HIP', 'Metal'], 'n1x3': ['Serial', 'dpcpp', 'CUDA'], 'n2x1s': ['OpenMP', 'OpenCL', 'Metal']}
     nests = [
